@@ -44,6 +44,22 @@ def run(ctx, escalated=False):
             ctx.count("exit:%s:%s%s" % (r["entry"], r["exit"], ":cancel-requested" if r["cancelled"] is not None else ""))
         if k % 30 == 29:
             shutil.rmtree(os.path.join(ctx.scratch, "cond"), ignore_errors=True)
+    # directed: the cancel request is already there when the conductor starts to poll - issued while
+    # `maestro run` was staging or waiting at its prompt (seeded change C05-n removed such a "stale"
+    # request in the -fg branch) - through each entry point in turn
+    for k in range(9 if quick else 90):
+        entry = ("direct", "fg", "bg")[k % 3]
+        r = condsim.run(ctx, ctx.rng, "pc%d" % k, cancel_prob=0.0, local_prob=0.2, entry=entry,
+                        force={"_cancel_at_init": True})
+        if r is None:
+            continue
+        extra.append(Case({"kind": "conductor-cancel-before-first-poll", "spec": r["spec"], "polls": r["polls"],
+                           "returned": r["ret"], "entry": r["entry"], "exit_code": r["exit"], "options": r["options"],
+                           "cancel_at_poll": r["cancelled"], "cancel_how": r["cancel_how"]},
+                          [r["loop"][0]] if r["loop"] else [], [r["loop"][1]] if r["loop"] else [],
+                          r["mon"]["C05"][:3], True))
+        ctx.count("cancel-before-first-poll:%s:%s" % (r["entry"], r["ret"]))
+    shutil.rmtree(os.path.join(ctx.scratch, "cond"), ignore_errors=True)
     import scripted as S
     S.install()
     cases = cases + extra
